@@ -303,6 +303,10 @@ func c24(r *Run) {
 	if wp != nil {
 		// every key of the map is listed: the append is controlled by the loop alone and lies on every way round it
 		ap := findEffects(wp, "call builtin.append(phi(*), [next(range(p0))#1])")
+		if len(ap) == 0 {
+			// ... or a slice made at its final length and filled slot by slot with a counter that advances every time
+			ap = findEffects(wp, "store makeslice([]string, builtin.len(p0), builtin.len(p0))[phi(*)] = next(range(p0))#1")
+		}
 		every := len(ap) == 1
 		if every {
 			for _, c := range ap[0].Conds() {
@@ -366,7 +370,8 @@ func c24(r *Run) {
 		}
 		// every key of the map is emitted: range over p0, append key
 		h := findLoopOver(wp, "p0")
-		r.check(h != nil && loopExitsOnlyAtHeader(h) && len(findEffects(wp, "call builtin.append(*, [next(range(p0))#1])")) == 1, "C24.R1", "WithoutPermissions:every-key", w.rel(wp.Pos()), "", "WithoutPermissions does not emit every key of the map")
+		emits := len(findEffects(wp, "call builtin.append(*, [next(range(p0))#1])")) == 1 || len(findEffects(wp, "store makeslice([]string, builtin.len(p0), builtin.len(p0))[phi(*)] = next(range(p0))#1")) == 1
+		r.check(h != nil && loopExitsOnlyAtHeader(h) && emits, "C24.R1", "WithoutPermissions:every-key", w.rel(wp.Pos()), "", "WithoutPermissions does not emit every key of the map")
 	}
 
 	rw := r.fn(w, "C24.R2", "(*"+pkgFetcher+".Fetcher).runWorker")
